@@ -95,9 +95,16 @@ def run(ctx):
         for x in P.subterms(t, data_only=True):
             if x[0] in ("call", "inl"):
                 calls.add(x[1])
-        bad = sorted(c for c in calls if c not in allowed_calls and not c.startswith("ural.infer_redirection.") )
+        bad = sorted(c for c in calls if c not in allowed_calls and not c.startswith("ural.infer_redirection.") and c != "ural.patterns.CONTROL_CHARS_RE.sub")
         ctx.ob("R2", "return@%d/transformers" % r.node.lineno if False else "return/%s/transformers" % P.show(t, maxdepth=1)[:40], not bad,
                "infer_redirection returns a value built with %s" % ", ".join(bad), mod.site(r.node))
+        # a value that is not a target (no piece taken out of the url: regex group / split piece / join) must be the
+        # argument itself -- not a rewritten copy of it
+        takes_piece = any((y[0] == "method" and y[1] in ("group", "groups")) or y[0] in ("sub", "item") or (y[0] == "call" and y[1] in ("urllib.parse.urljoin", "urllib.parse.unquote")) for y in P.subterms(t, data_only=True))
+        if not takes_piece and F.find_nodes(t, lambda y: y == ("param", "url"), data_only=True):
+            ctx.ob("R2", "return/%s/input-returned-as-given" % P.show(t, maxdepth=1)[:40], t == ("param", "url"),
+                   "infer_redirection returns %s, a rewritten copy of its argument: the result is neither the input itself nor a target present in it" % P.show(t, maxdepth=3), mod.site(r.node),
+                   witness="https://www.qwant.com/?q=%63af%65&t=web")
         consts = [x[1] for x in P.subterms(t, data_only=True) if x[0] == "const" and isinstance(x[1], str) and x[1]]
         badc = [c for c in consts if c not in ("https://", "http://", "") and not c.isdigit()]
         ctx.ob("R2", "return/%s/constants" % P.show(t, maxdepth=1)[:40], not badc, "infer_redirection splices the constant(s) %r into its result" % badc, mod.site(r.node))
@@ -151,6 +158,8 @@ def _not_longer_than_url(ctx, t):
     if t == ("param", "url"):
         return True
     op = F.regex_op(t)
+    if op is not None and op[1] == "sub" and len(op[2]) == 2 and op[2][0] == ("const", ""):
+        return _not_longer_than_url(ctx, op[2][1])  # a deletion
     if op is None or op[1] != "sub" or len(op[2]) != 2 or op[2][0][0] != "funcref" or not _not_longer_than_url(ctx, op[2][1]):
         return False
     repo = ctx.repo
